@@ -45,7 +45,8 @@ Next ==
   /\ \/ \* plain key-switch: every gadget shape
         \E bin \in Bs, bkey \in Bs, bout \in Bs, sin \in 1..MaxSIn, rin \in Ranks, rout \in Ranks, pc \in PCs, nz \in BoundIdx : \E ks \in KsKeys(bkey) :
           \E sout \in ({ks[1] - 1, ks[1], ks[1] + 1} \cap (1..(MaxSKey + 1))) :
-            c' = D("keyswitch", bin, bkey, bout, sin, ks[1], sout, rin, rout, ks[2], ks[3], pc, nz)
+            /\ sout * bout <= 28 /\ sin * bin <= 28            \* native-integer phase arithmetic of the validating model
+            /\ c' = D("keyswitch", bin, bkey, bout, sin, ks[1], sout, rin, rout, ks[2], ks[3], pc, nz)
      \/ \E bin \in Bs, bkey \in Bs, sin \in 1..MaxSIn, r \in Ranks, pc \in PCs, nz \in BoundIdx : \E ks \in KsKeys(bkey) :
             c' = D("keyswitch_assign", bin, bkey, bin, sin, ks[1], sin, r, r, ks[2], ks[3], pc, nz)
      \/ \* automorphisms and their add / sub variants: every Galois element in both signs
